@@ -2684,6 +2684,7 @@ func (vm *Thread) opForInBuiltin() (err value.Value) {
 	if !err.IsUndefined() {
 		if err != symbol.L_stop_iteration.ToValue() {
 			// only the end of the iteration ends the loop, every other error is thrown
+			vm.ipIncrementBy(2)
 			return err
 		}
 		vm.pop()
